@@ -4,8 +4,9 @@ and record which rules report it (by applying it to /repo, running the property'
 import json, os, re, shutil, subprocess, sys
 prop, k = sys.argv[1], sys.argv[2]
 confirm = " ".join(sys.argv[3:])
-src = f"/tmp/wt_{prop}/_seed/{k}"
-dst = f"/verif/seeded/{prop}-{k}"
+ROUND2 = os.environ.get("SEED_ROUND") == "2"
+src = f"/tmp/{'r2' if ROUND2 else 'wt'}_{prop}/_seed/{k}"
+dst = f"/verif/seeded/{prop}-{'r2-' if ROUND2 else ''}{k}"
 os.makedirs(dst, exist_ok=True)
 for f in ("patch.diff", "demo.py", "notes.md"):
     shutil.copy(os.path.join(src, f), os.path.join(dst, f))
@@ -15,7 +16,7 @@ _spec = importlib.util.spec_from_file_location("seeds", "/verif/selftest/seeds.p
 _seeds = importlib.util.module_from_spec(_spec)
 _spec.loader.exec_module(_seeds)
 json.dump({"property": prop}, open(os.path.join(dst, "meta.json"), "w"))
-_sid, caught, _msg = _seeds.one(f"{prop}-{k}")
+_sid, caught, _msg = _seeds.one(os.path.basename(dst))
 rules = sorted(set(re.findall(r"'(C\d\d\.[a-z_0-9]+)'", _msg)))
 notes = open(os.path.join(dst, "notes.md")).read()
 meta = {
@@ -23,7 +24,7 @@ meta = {
     "files_touched": sorted(set(re.findall(r"^\+\+\+ b/(\S+)", open(os.path.join(dst, "patch.diff")).read(), re.M))),
     "needs_to_manifest": notes[:1500],
     "confirmed_by_me": confirm,
-    "what_i_ran": [f"/verif/selftest/confirm_seeds.sh /tmp/wt_{prop}  (demo on clean tree -> exit 0; git apply patch; demo -> exit 1; full pytest suite with the patch -> same counts as baseline; git checkout -- .)",
+    "what_i_ran": [f"/verif/selftest/confirm_seeds.sh /tmp/{'r2' if ROUND2 else 'wt'}_{prop}  (demo on clean tree -> exit 0; git apply patch; demo -> exit 1; full pytest suite with the patch -> same counts as baseline; git checkout -- .)",
                    f"/verif/selftest/seeds.py {prop}-{k}  (patch applied to a scratch copy of /repo/btclib; VERIF_REPO=<copy> /verif/check {prop} --tier thorough; copy removed)"],
     "caught_by_check": caught,
     "reporting_rules": rules,
